@@ -132,7 +132,7 @@ def in_known_class(f, nbatches, pastified):
 
 
 @st.composite
-def cases(draw, tier, pastified=False, bounded=True, chunked=True):
+def cases(draw, tier, pastified=False, bounded=True, chunked=True, shifted=False):
     if pastified:
         prof = DENSE.copy(un_temp=('once', 'historically'), bin_temp=('since',), tbin=('since',), max_bound=4)
     else:
@@ -141,7 +141,7 @@ def cases(draw, tier, pastified=False, bounded=True, chunked=True):
         prof = prof.copy(tun=(), tbin=())
     if tier == 'thorough':
         prof = prof.copy(max_depth=4)
-    c = draw(ct_cases(prof, tier, max_samples=6, min_samples=2))
+    c = draw(ct_cases(prof, tier, max_samples=6, min_samples=2, shifted=shifted))
     c['pastified'] = pastified
     nmax = max(len(s) for s in c['signals'].values())
     kind = draw(st.sampled_from(['common', 'common', 'single', 'independent'])) if chunked else 'whole'
@@ -231,6 +231,13 @@ def check(case):
     h = F.horizon(f)
     if h is None:
         return DISCARD('unbounded', labels)
+    if sig and min(s[0][0] for s in sig.values()) > 0:
+        labels.append('shifted')
+        # constants are signals of their own, defined from time 0: with t0 > 0 they only stand next to a variable in arithmetic / predicates
+        for x in F.subterms(f):
+            arith = (x[0] == 'pred') or (x[0] == 'bin' and x[1] in F.BIN_ARITH) or (x[0] == 'un' and x[1] in F.UN_ARITH)
+            if (x[0] in ('pred', 'bin', 'un', 'tun', 'tbin') and not F.fvars(x)) or (not arith and any(c[0] == 'const' for c in F.children(x))):
+                return DISCARD('variable-free-subformula-with-t0>0', labels)
     ref_sig = sig
     if case.get('staggered'):
         # the variables start at different instants and the formula has no temporal operator: its value at t is a function
@@ -300,6 +307,35 @@ def check(case):
     nontrivial = (len(batches) >= 2 or case.get('schedule') == 'whole') and bool(out) and any(s[0] in ('bin', 'pred', 'tun', 'tbin') or (s[0] == 'un' and s[1] in ('once', 'historically'))
                                                        for s in F.subterms(f))
     return PASS(nontrivial, labels)
+
+
+KNOWN_LATE_START = 'operand-read-from-its-late-start:past-operator-over-bounded-operator-with-t0>0'
+
+
+def check_shifted_bounded(case):
+    """Signals that start at t0 > 0 under bounded past operators. The dense-time online once[a,b] / historically[a,b] / since[a,b]
+    report nothing for [t0, t0+a) (the suite pins that: test_once_1_3, test_historically_1_2_1 of the online API tests), which the
+    statement allows - but a past operator above such an operand takes the first instant it hears of for the start of the
+    operand: the open finding KNOWN_LATE_START. Everything else is compared as in every lane."""
+    from .C04 import past_over_bounded_future
+    v = check(case)
+    if v.status != 'fail' or not v.key.startswith('online-differs-from-reference'):
+        return v
+    f = from_json(case['formula'])
+    k0 = min(s[0][0] for s in case['signals'].values())
+    if k0 <= 0 or not past_over_bounded_future(f):
+        return v
+    c = dict(case)
+    c['signals'] = {x: [[k - k0, y] for k, y in s] for x, s in case['signals'].items()}
+    if 'cuts' in c:
+        c['cuts'] = [k - k0 for k in c['cuts']]
+    try:
+        if check(c).status != 'pass':
+            return v
+    except Exception:  # noqa
+        return v
+    return FAIL(KNOWN_LATE_START, v.detail + '\n(the same case with all time stamps moved to start at 0 agrees with the reference: the past operator above the bounded '
+                'operator reads its operand from t0 + a on, where the semantics has -inf / +inf on [t0, t0 + a))', v.labels + ['late-start'])
 
 
 def check_main(case):
@@ -617,6 +653,8 @@ LANES = [
     Lane('long_chunked', long_cases, check, 600, 8000, candidates),
     Lane('skewed', skewed_cases, check, 800, 10000, candidates),
     Lane('staggered', staggered_cases, check, 1000, 10000, candidates),
+    Lane('shifted_bounded', lambda tier: cases(tier, False, bounded=True, shifted=True), check_shifted_bounded, 1000, 10000, candidates),
+    Lane('shifted_unbounded', lambda tier: cases(tier, False, bounded=False, shifted=True), check, 1000, 10000, candidates),
     Lane('unbounded_chunked', lambda tier: cases(tier, False, bounded=False), check, 3000, 40000, candidates),
     Lane('bounded_whole', lambda tier: cases(tier, False, chunked=False), check, 1500, 20000, candidates),
     Lane('pastified_whole', lambda tier: cases(tier, True, chunked=False), check, 1000, 15000, candidates),
